@@ -710,6 +710,8 @@ class Client:
         Returns:
           The value for the key, or default if the key wasn't found.
         """
+        # expire=None would silently turn the command into "gat <key>"
+        self._check_integer(expire, "expire")
         return self._fetch_cmd(
             b"gat", [key], False, key_prefix=self.key_prefix, expire=expire
         ).get(key, default)
@@ -771,6 +773,7 @@ class Client:
           or (default, cas_defaults) if the key was not found.
         """
         defaults = (default, cas_default)
+        self._check_integer(expire, "expire")
         return self._fetch_cmd(
             b"gats", [key], True, key_prefix=self.key_prefix, expire=expire
         ).get(key, defaults)
